@@ -1,5 +1,5 @@
 #!/usr/bin/env python3
-"""Regenerates the two generated tables of DESIGN.md §13 from known_findings.json and seeded/RESULTS.tsv (+ seeded/NOTES.tsv)."""
+"""Regenerates the generated lists/tables of DESIGN.md §13 from known_findings.json and seeded/RESULTS.tsv (+ seeded/NOTES.tsv)."""
 import collections
 import json
 import os
@@ -39,6 +39,10 @@ def main():
     i = s.index(h1) + len(h1)
     j = s.index("\n\nThe baseline suite", i)
     s = s[:i] + "\n".join(fix) + s[j:]
+    h0 = "### 13.6 Known findings (genuine, not repaired; listed by mechanism in known_findings.json)\n\n"
+    i = s.index(h0) + len(h0)
+    j = s.index("\n\nWhy not repaired:", i)
+    s = s[:i] + "\n".join(known) + s[j:]
     h2 = "| seeded change | check | rc | first signature reported | note |\n|---------------|-------|----|--------------------------|------|\n"
     i = s.index(h2) + len(h2)
     j = s.index("\n\nRetired:", i)
